@@ -15,17 +15,33 @@
 //!   RUN <n> scenario=<name> mode=<mode>
 //!   CFG huge_order=.. tree_huge=.. frames=.. init=free|alloc threads=N
 //!   PRE <get s o|getat f o|put f o> <result>          sequential prologue (main thread, no hooks)
-//!   SNAP <step> ents=.. rows=.. stats=ff,fh,ft          (--snapshots) recovered state of a crash here
 //!   CALL <tid> get <start_row> <order> | getat <frame> <order> | put <frame> <order>
 //!   S <tid> <load|cas|store|swap|rmw> <ent|row> <huge> <row> <bitoff> <width> <found hex> <new hex|-> <ok>
-//!   X <tid> <kind> <trees|local|other> <byte offset> <width> <found> <new|-> <ok>   access outside lower
+//!       (`new` of a failed CAS is `-`: the hooks do not see the value it wanted to write)
+//!   X <tid> <kind> <trees|local|lowerpad|other> <byte offset> <width> <found> <new|-> <ok>   access outside lower
 //!   RET <tid> ok <frame> | ok | err mem|arg|init | panic <file:line> <msg>
-//!   SOLO <tid> steps=<n> budget=<B> result=<..>          (freeze mode, after the RET of the solo call)
+//!   SNAP <step> ents=.. rows=.. stats=ff,fh,ft | SNAP <step> panic <file:line> <msg>
+//!       (--snapshots) a crash here: the lower buffer is copied and recovered (`Init::Recover`, fresh
+//!       zeroed trees/local buffers); printed after the prologue and after every step that wrote to
+//!       the lower buffer, i.e. once for every memory state = before every write and at the end
+//!   SOLO <tid> steps=<n> before=<steps of the call before the freeze> frozen_at=<k> budget=<B> result=<..>
+//!       (freeze mode, after the RET of the call that ran alone)
 //!   HFAIL <text>                                        harness-side oracle
 //!   SCHED <tid,tid,...>                                 the schedule that was executed
 //!   END ents=<hex u16,...> rows=<row,row,..;row,...>
 //!
-//! Modes: exhaustive (preemption-bounded DFS), pct, replay, freeze.  See `usage()`.
+//! Modes (`--mode`):
+//!   exhaustive  all schedules of a scenario with at most `--preemptions P` preemptions (DFS; a
+//!               preemption = switching away from a thread in the middle of a call)
+//!   pct         `--runs N` PCT schedules (random priorities, up to `--depth d` - 1 change points), `--seed`
+//!   replay      `--schedule 0,0,1,..`; entries of threads that cannot move are skipped, afterwards
+//!               the remaining threads run round-robin
+//!   freeze      after every prefix of a base schedule (`--schedule`, or round-robin + `--runs` PCT
+//!               schedules; `--sample m` points per base) every in-flight call runs alone: SOLO lines,
+//!               `HFAIL solo budget` beyond `--budget B` steps
+//! `--shard i/n` partitions the schedules of a mode (DFS subtrees / run indices) for parallel runs.
+//! Scenarios: `--scenario name,name|all` (`--list`), `--scenario-file f` (NAME/INIT/TREES|FRAMES/PRE/CALL
+//! lines, or a transcript block).  `putlast <order>` frees the block of the thread's latest get.
 use std::cell::{Cell, RefCell};
 use std::collections::HashSet;
 use std::fmt::Write as FmtWrite;
@@ -258,7 +274,10 @@ fn exec(alloc: &LLFree, c: CallSpec) -> Res {
 }
 
 fn exec_caught(alloc: &LLFree, c: CallSpec) -> Res {
-    match catch_unwind(AssertUnwindSafe(|| exec(alloc, c))) {
+    let q = QUIET.with(|t| t.replace(true));
+    let r = catch_unwind(AssertUnwindSafe(|| exec(alloc, c)));
+    QUIET.with(|t| t.set(q));
+    match r {
         Ok(r) => r,
         Err(_) => Res::Panic(PANIC_MSG.with(|m| m.borrow().clone())),
     }
@@ -391,9 +410,12 @@ fn builtin() -> Vec<Scenario> {
     let to = TREE_ORDER;
     let tf = TREE_FRAMES;
     let rows_h = ROWS; // rows per huge frame
-    let mut v: Vec<Scenario> = Vec::new();
-    let mut add = |name: &str, alloc_all: bool, trees: usize, pre: Vec<CallSpec>, threads: Vec<Vec<CallSpec>>| {
-        v.push(Scenario { name: name.into(), alloc_all, frames: trees * tf, pre, threads });
+    let v = RefCell::new(Vec::<Scenario>::new());
+    let add_frames = |name: &str, alloc_all: bool, frames: usize, pre: Vec<CallSpec>, threads: Vec<Vec<CallSpec>>| {
+        v.borrow_mut().push(Scenario { name: name.into(), alloc_all, frames, pre, threads });
+    };
+    let add = |name: &str, alloc_all: bool, trees: usize, pre: Vec<CallSpec>, threads: Vec<Vec<CallSpec>>| {
+        add_frames(name, alloc_all, trees * tf, pre, threads)
     };
     // --- two base gets on the same tree
     add("get0-get0", false, 1, vec![], vec![vec![Get(0, 0)], vec![Get(0, 0)]]);
@@ -450,6 +472,8 @@ fn builtin() -> Vec<Scenario> {
     add("split-put0-put0", true, 1, vec![], vec![vec![Put(5, 0)], vec![Put(6, 0)]]);
     add("split-put7-put7", true, 1, vec![], vec![vec![Put(0, 7)], vec![Put(128, 7)]]);
     add("split-put3-put0", true, 1, vec![], vec![vec![Put(8, 3)], vec![Put(64, 0)]]);
+    // the first free releases a whole row, which a stale split attempt of the second one can fill again
+    add("split-put6-put0", true, 1, vec![], vec![vec![Put(0, 6)], vec![Put(64, 0)]]);
     add("split-put0-get0", true, 1, vec![], vec![vec![Put(5, 0)], vec![Get(0, 0)]]);
     // --- put order 9 vs get order 9
     add("put9-get9", false, 1, vec![Get(0, ho)], vec![vec![Put(0, ho)], vec![Get(0, ho)]]);
@@ -497,6 +521,34 @@ fn builtin() -> Vec<Scenario> {
         vec![Get(0, 7)],
         vec![vec![Put(0, 7)], vec![Get(0, 7)], vec![Get(0, 0)]],
     );
+    // --- one thread (every schedule is the sequential run) and four threads
+    add(
+        "one-getput",
+        false,
+        1,
+        vec![],
+        vec![vec![Get(0, 0), PutLast(0), Get(0, 3), PutLast(3), Get(0, 7), PutLast(7), Get(0, ho), PutLast(ho), Get(0, to), PutLast(to)]],
+    );
+    add(
+        "mix4-get0-get0-put0-get7",
+        false,
+        1,
+        vec![Get(0, 0)],
+        vec![vec![Get(0, 0)], vec![Get(0, 0)], vec![Put(0, 0)], vec![Get(0, 7)]],
+    );
+    // --- a partial last tree: half a huge frame plus 7 frames behind one whole tree
+    let pf = tf + hf / 2 + 7;
+    let prow = tf / 64;
+    add_frames("partial-get0-get0", false, pf, vec![], vec![vec![Get(prow, 0)], vec![Get(prow, 0)]]);
+    add_frames("partial-get6-get7", false, pf, vec![], vec![vec![Get(prow, 6)], vec![Get(prow, 7)]]);
+    add_frames("partial-put0-put0", true, pf, vec![], vec![vec![Put(tf + 3, 0)], vec![Put(tf + 4, 0)]]);
+    add_frames(
+        "partial-getput-lastrow",
+        false,
+        pf,
+        vec![GetAt(tf + hf / 2, 2)],
+        vec![vec![Get(prow + hf / 128, 0), PutLast(0)], vec![Put(tf + hf / 2, 2)]],
+    );
     if TREE_HUGE >= 2 {
         add(
             "mix3-split-put9-get0",
@@ -506,7 +558,7 @@ fn builtin() -> Vec<Scenario> {
             vec![vec![Put(5, 0)], vec![Put(hf, ho)], vec![Get(0, 0)]],
         );
     }
-    v
+    v.into_inner()
 }
 
 fn parse_call(t: &[&str]) -> CallSpec {
@@ -737,10 +789,12 @@ impl<'a> Exec<'a> {
         env.snap.zero();
         unsafe { std::ptr::copy_nonoverlapping(env.bufs.lower, env.snap.lower, env.bufs.lower_len) };
         let frames = self.scn.frames;
+        let q = QUIET.with(|t| t.replace(true));
         let r = catch_unwind(AssertUnwindSafe(|| {
             let a = LLFree::new(frames, Init::Recover, &env.classing, env.snap.meta()).expect("recover");
             a.stats()
         }));
+        QUIET.with(|t| t.set(q));
         match r {
             Ok(s) => {
                 let _ = writeln!(
@@ -1254,7 +1308,7 @@ fn run_freeze(env: &'static Env, scn: &'static Scenario, base: &[usize], budget:
     for (k, t) in points {
         let ch = Freeze { prefix: actual[..k].to_vec(), pos: 0, t, phase: 0, solo: 0, before: 0, budget, rr: RoundRobin { t: 0 } };
         let done = drive(Exec::new(env, scn, *run0, "freeze"), Box::new(ch));
-        sink.emit(scn, done, true);
+        sink.emit(scn, done, false);
         *run0 += 1;
     }
 }
@@ -1274,7 +1328,7 @@ fn check_layout(env: &Env) {
     let ent = |h: usize| read_mem(tbase + (h / TREE_HUGE) * TAB_SIZE + 2 * (h % TREE_HUGE), 2);
     let row = |h: usize, r: usize| read_mem(lo + h * BF_SIZE + 8 * r, 8);
     for h in 0..nbf(frames) {
-        assert_eq!(ent(h) as usize, HUGE_FRAMES, "free entry {h}");
+        assert_eq!(ent(h) as usize, HUGE_FRAMES.min(frames - h * HUGE_FRAMES), "free entry {h}");
     }
     // single frames: bit (f % 64) of row (f / 64) % ROWS of bitfield f / HUGE_FRAMES; counter of entry f / HUGE_FRAMES
     let mut probes = vec![0usize, 1, 63, 64, 65, HUGE_FRAMES - 1, frames - 1];
@@ -1298,7 +1352,7 @@ fn check_layout(env: &Env) {
     assert_eq!(row(0, 1), 0xff00);
     assert_eq!(lower_put(&a, 72, 3), Ok(()));
     // huge entries
-    for h in 0..nbf(frames) {
+    for h in 0..frames / HUGE_FRAMES {
         assert_eq!(lower_get(&a, h * ROWS, HUGE_ORDER, Some(h * HUGE_FRAMES)), Ok(h * HUGE_FRAMES));
         assert_eq!(ent(h), 0xffff, "marker of huge frame {h}");
         assert_eq!(lower_put(&a, h * HUGE_FRAMES, HUGE_ORDER), Ok(()));
@@ -1381,7 +1435,7 @@ fn main() {
         };
         let msg = msg.replace(['\n', '\r'], " ");
         let text = format!("{loc} {msg}");
-        if !QUIET.with(|t| t.get()) && TID.with(|t| t.get()) == NONE {
+        if !QUIET.with(|t| t.get()) {
             eprintln!("schedrun: panic {text}");
         }
         PANIC_MSG.with(|m| *m.borrow_mut() = text);
@@ -1418,7 +1472,6 @@ fn main() {
             frames,
             snapshots,
         }));
-        QUIET.with(|t| t.set(true));
         check_layout(env);
         for scn in scns.iter().filter(|s| s.frames == frames) {
             let before = sink.tot.emitted;
